@@ -26,6 +26,28 @@ CHECKS = {
              "get_variants filter combination is checked before and after a write/read cycle.",
         note="Trusted: TLC, the adapter's projection of .variants/.parent, three name and two arch concretisations. Bounded by the pool (<= 10 filed variants).",
         design="4 C11"),
+    "C12": dict(
+        technique="TLA+ builder state machines RpmsManifest.tla / Builders.tla: TLC-enumerated argument matrix and add histories replayed on the real Rpms/Modules/ExtraFiles classes, action properties checked by TLC",
+        text="TLC checks RefusedIsNoop/OnlyAddressed/UnderSource/SigLower/RpmListGrows/FilesAppendOnly on the reference models while "
+             "enumerating the full argument-class matrix of each add (one call) and all histories to depth 2-4 (+ tlc -simulate depth 6-7); "
+             "each behaviour is replayed on the real class comparing exception class {ValueError,TypeError} and the whole public mapping "
+             "after every call; dump_for_tree is compared with the spec's Strip operator on all (path, base) component sequences <= 3.",
+        note="Trusted: TLC, the adapters' rendering of argument classes (2 name tables x 3 arch tables rotated). Bounded pools.",
+        design="4 C12"),
+    "C03": dict(
+        technique="TLA+ builder state machines (RpmsManifest.tla, Builders.tla) as generators of manifests + independent JSON oracle on the real write/read cycle",
+        text="Every manifest reachable by the add histories TLC enumerates is built on the real class, written, parsed by json.loads and "
+             "compared with the model's mapping (an oracle independent of the library's reader), read back and compared again, and "
+             "re-written byte-identically; header type and compose section checked.",
+        note="Trusted: TLC, adapters. The payload is the model's mapping, so reader/writer symmetric bugs are visible.",
+        design="4 C03"),
+    "C10": dict(
+        technique="TLA+ state machines ImagesManifest.tla / RpmsManifest.tla: NoSourceArch invariant by TLC, TLC-enumerated adds and old-format documents replayed on the real loaders, recorded traces validated by TLC",
+        text="TLC checks NoSourceArch, SrcRefiled, LoadConserves on the models; every add over arch classes and every small 1.0/1.1/1.2 images "
+             "document / 0.3 rpms document (src tables next to binary arches, orphans, src-only variants, nosrc/unknown cells) is loaded by the "
+             "real code and the arch keys and contents of object and re-dumped payload are compared with the model's re-filing.",
+        note="Trusted: TLC, adapters; the 0.3 src-table layout follows the only description there is, the legacy reader.",
+        design="4 C10"),
 }
 
 
